@@ -2,8 +2,8 @@ package rules
 
 import (
 	"go/ast"
-	"go/types"
 	"go/token"
+	"go/types"
 
 	"sialint/internal/cfgx"
 	"sialint/internal/ir"
